@@ -37,8 +37,13 @@ def equate(a: Quantity, b: Quantity) -> None:
     a = a.unprefixed()
     b = b.unprefixed()
 
-    _ratios[a.unit][b.unit] = _div(b.magnitude, a.magnitude)
-    _ratios[b.unit][a.unit] = _div(a.magnitude, b.magnitude)
+    # both directions are worked out before either is recorded, so that a magnitude of
+    # zero (which cannot be divided by) does not leave half a definition behind
+    forward = _div(b.magnitude, a.magnitude)
+    backward = _div(a.magnitude, b.magnitude)
+
+    _ratios[a.unit][b.unit] = forward
+    _ratios[b.unit][a.unit] = backward
 
     # paths and plans found (or not found) before this definition are stale now
     _find_path.cache_clear()
